@@ -64,12 +64,15 @@ def c07_work(item, ctx):
 def c08_work(item, ctx):
     res = F.Res()
     kind = item[0]
-    if kind == "preempt":
+    if kind in ("preempt", "fast"):
         _, idx, nseq, maxops = item
-        run_engine(res, ctx["exes"]["ubsan:tmrcheck-tf"], ["c08", F.seed_for(ctx["seed"], "C08", idx) & 0xFFFFFFFF, nseq, maxops], "c08", sample=(idx == 0))
+        run_engine(res, ctx["exes"]["ubsan:tmrcheck-tf"], ["c08" if kind == "preempt" else "c08fast", F.seed_for(ctx["seed"], "C08" + kind, idx) & 0xFFFFFFFF, nseq, maxops],
+                   "c08", sample=(idx == 0 and kind == "fast"))
+        if res.counters["breakpoint_never_hit"]:
+            res.inconclusive.append("%d breakpoint placements were never reached" % res.counters["breakpoint_never_hit"])
         res.nt_count = res.counters["preempt_executions"]   # each is a different (sequence, operation, instruction index) placement
         res.extra["distinct_preemption_pcs"] = res.counters["preempt_distinct_pcs"]
-        if idx == 0:
+        if idx == 0 and kind == "fast":
             res.sample({"preemption": "%d sequences; every stack instruction of every task-level call (create/delete/process) preempted once by the tick ISR" % nseq,
                         "placements": res.counters["preempt_executions"], "isr_deferred_by_lock": res.counters["isr_deferred"]})
     else:
@@ -141,19 +144,22 @@ def for_property(prop):
     else:
         m.VARIANTS = [("ubsan", ("tmrcheck.c",), "tmrcheck-tf", {"rename_text": True}), ("asan", ("tmrcheck.c",), "tmrcheck", {})]
         m.RULE = ("task-level sequences over {create, delete, tick+process, service only, process only} with callbacks that create/delete; "
-                  "for every operation and EVERY instruction of the stack's code executed by it (x86 trap flag, same-thread handler = "
-                  "single-core ISR) the tick service is raised at that instruction - deferred to the unlock if it falls inside a "
+                  "for every operation and EVERY instruction of the stack's code executed by it (positions found by x86 trap-flag single stepping, "
+                  "then reached by a breakpoint; same-thread handler = single-core ISR) the tick service is raised at that instruction - deferred to the unlock if it falls inside a "
                   "COTmrLock/COTmrUnlock section - then the rest of the sequence and a drain run; oracles: no run before due / twice per "
                   "expiry, no run after confirmed delete, every action due at the start of a processing pass runs in it, nothing lost at "
                   "quiescence, pool conservation and list structure at every quiescent point and at every ISR entry, delete of an "
                   "elapsed-unprocessed action confirmed; distinct = (sequence, operation, instruction index) placements")
         m.ASSUMPTIONS = ["one core, the tick ISR does not nest and never runs inside a lock/unlock section",
-                         "at most two interrupts per task-level call", "x86-64 instruction granularity of this build (gcc -O1 + UBSan)"]
+                         "one interrupt per task-level call in the breakpoint mode, up to two in the single-stepped share", "x86-64 instruction granularity of this build (gcc -O1 + UBSan)"]
         m.work = c08_work
 
         def plan(tier, seed):
             q = tier == "quick"
-            items = [("preempt", i, 6 if q else 24, 10) for i in range(16 if q else 64)]
+            # 'fast': the instruction is reached with a breakpoint (one interrupt per call); 'preempt': single-stepped, with a second
+            # interrupt in 1 of 8 executions (25 us per trap in this VM, hence the small share)
+            items = [("fast", i, 150 if q else 4000, 10) for i in range(16 if q else 64)]
+            items += [("preempt", i, 1 if q else 6, 10) for i in range(16 if q else 48)]
             items += [("plain", i, 3000 if q else 30000, 14) for i in range(4 if q else 16)]
             return items
         m.plan = plan
@@ -161,7 +167,7 @@ def for_property(prop):
         def finish(total, tier):
             c = total.counters
             p = []
-            if c["preempt_executions"] < 5000:
+            if c["preempt_executions"] < 100000:
                 p.append("only %d preemption placements executed" % c["preempt_executions"])
             if c["isr_deferred"] < 100 or c["elapsed_deletes"] < 20:
                 p.append("too few deferred interrupts / elapsed deletes observed: %d / %d" % (c["isr_deferred"], c["elapsed_deletes"]))
